@@ -394,6 +394,8 @@ PENDING = {
                                            '(pushed to the next page) distributes align-content:stretch space differently',
     'c19:grid-stretch-writeback-relayout': 'grid layout writes stretched width/height into child.style: a grid laid out twice sizes '
                                            'its auto tracks differently',
+    'c19:diskcache-del-removes-shared-folder': 'DiskCache.__del__ unlinks its files and removes the folder: two renders given the same '
+                                               'cache folder break each other (FileNotFoundError) when the first Document is collected',
     'c19:bleedbox-cap-not-scaled': 'BleedBox is at most 10 points from the TrimBox whatever the zoom: it does not scale with zoom',
 }
 FOREIGN_KNOWN = {'c13:image-cache-ignores-orientation'}      # listed under another property: never re-reported here
